@@ -24,6 +24,7 @@ pub fn check(tier: Tier) -> Check {
     parts.push(Part::new("C08/tiny", json!({"depth": tier.pick(3, 4)}), 0, tier.pick(40, 300)));
     // value flavour (DESIGN 4): the same exploration with requests / inbound messages of unusual content
     parts.push(Part::new("C08/acks", json!({"depth": tier.pick(3, 4), "pids": [1, 65535], "vals": 1}), 0, tier.pick(40, 300)));
+    parts.push(Part::new("C08/acks", json!({"depth": tier.pick(3, 4), "pids": [1, 65535], "vals": 1, "flavour": 1}), 0, tier.pick(40, 300)));
     Check {
         also_rel: false,
         property: "C08",
